@@ -38,12 +38,16 @@ type Case struct {
 	// Race: all senders are released together as the very first traffic towards the peer; only message 0
 	// of sender 0 has Size bytes, everything else is tiny (a later message must not overtake it)
 	Race bool `json:"race,omitempty"`
-	// NearLimit d > 0: the even messages are sized so that the frame announces exactly 4 MiB - d bytes
+	// NearLimit d > 0: the even messages are sized so that the frame announces exactly 4 MiB - (d-1) bytes: d = 1
+	// is the largest legal frame (exactly 4 MiB)
 	// (legal: the receiver rejects more than 4 MiB), the odd ones are tiny
 	NearLimit int `json:"nearLimit,omitempty"`
 	// BadEvery k > 0: every k-th Tell (i % k == k-1) is a message the receiving side cannot decode (its registered
 	// reader returns an error): it cannot be delivered, everything around it must be
 	BadEvery int `json:"badEvery,omitempty"`
+	// HoldMs > 0: the path towards the receiver holds the dialler's handshake back this long and hands over, in
+	// one piece, whatever the dialler has sent by then
+	HoldMs int `json:"holdMs,omitempty"`
 }
 
 func (c Case) bad(i int) bool {
@@ -127,6 +131,10 @@ func genCase(t *rapid.T) Case {
 	if rapid.IntRange(0, 2).Draw(t, "withBad") == 0 && c.Burst >= 2 {
 		c.BadEvery = rapid.SampledFrom([]int{2, 3, 1, 7}).Draw(t, "badEvery")
 	}
+	hold := 0
+	if rapid.IntRange(0, 3).Draw(t, "holdHandshake") == 0 {
+		hold = rapid.SampledFrom([]int{5, 20, 60}).Draw(t, "holdMs")
+	}
 	switch rapid.IntRange(0, 9).Draw(t, "shape") {
 	case 0: // concurrent first contact
 		c = genRace(t)
@@ -134,6 +142,7 @@ func genCase(t *rapid.T) Case {
 		c = Case{Senders: 1, Burst: rapid.IntRange(1, 4).Draw(t, "nearBurst"), NearLimit: rapid.IntRange(1, 8).Draw(t, "belowLimit"),
 			Mode: rapid.SampledFrom([]string{"exact", "chunks", "split"}).Draw(t, "nearMode"), N: 4096}
 	}
+	c.HoldMs = hold
 	return c
 }
 
@@ -148,7 +157,7 @@ type verdict struct{ sig, detail string }
 func run(c Case) (v *verdict, inconclusive string, nontrivial bool, labels []string) {
 	pB := rlab.FreePort()
 	bindB := fmt.Sprintf("127.0.0.1:%d", pB)
-	proxy := rlab.NewProxy(bindB, rlab.ConnPlan{Mode: c.Mode, N: c.N, CutAfter: -1})
+	proxy := rlab.NewProxy(bindB, rlab.ConnPlan{Mode: c.Mode, N: c.N, CutAfter: -1, HoldHandshake: time.Duration(c.HoldMs) * time.Millisecond})
 	defer proxy.Close()
 	B, err := rlab.StartNode(rlab.NodeOpt{Bind: bindB, Advertise: proxy.Addr, ReconnectLimit: -1})
 	if err != nil {
@@ -173,7 +182,7 @@ func run(c Case) (v *verdict, inconclusive string, nontrivial bool, labels []str
 	}
 	near := 0
 	if c.NearLimit > 0 {
-		if near, err = nearLimitBody(A.Sys, target, frameLimit-c.NearLimit); err != nil {
+		if near, err = nearLimitBody(A.Sys, target, frameLimit-(c.NearLimit-1)); err != nil {
 			return nil, "cannot size the message: " + err.Error(), false, nil
 		}
 	}
@@ -347,6 +356,9 @@ func run(c Case) (v *verdict, inconclusive string, nontrivial bool, labels []str
 	}
 	nontrivial = proxy.WritesMultiFrame.Load() > 0 || proxy.WritesSplitFrame.Load() > 0
 	labels = []string{"mode:" + c.Mode}
+	if c.HoldMs > 0 {
+		labels = append(labels, "handshake-held-back")
+	}
 	if c.Race {
 		labels = append(labels, "concurrent-first-contact")
 		nontrivial = true
@@ -420,6 +432,7 @@ func TestC11Regressions(t *testing.T) {
 	for _, c := range []Case{
 		{Senders: 1, Burst: 200, Size: 100, Mode: "exact"},
 		{Senders: 1, Burst: 50, Size: 10, Mode: "coalesce", N: 8},
+		{Senders: 1, Burst: 5, Size: 10, Mode: "exact", HoldMs: 40},
 		{Senders: 2, Burst: 10, Size: 4097, Mode: "split", N: 3, AskEvery: 3},
 		{Senders: 1, Burst: 20, Size: 64, Mode: "exact", IdleMs: 10600}, // a connection older than the 10 s handshake deadline
 		{Senders: 1, Burst: 4, NearLimit: 1, Mode: "exact"},
